@@ -86,9 +86,14 @@ def renders(linker, fname, pname, depth=0, seen=None):
     except KeyError:
         return False
     found = [False]
+    # locals that stand for (an iterator over / a view of) the parameter: `let mut tables = from.iter();`
+    names = {pname}
+    for n_ in walk(t.body):
+        if n_.get("k") == "stmt_let" and n_.get("init") is not None and n_["pat"].get("k") == "bind" and L.mentions_param(n_["init"], pname):
+            names.add(n_["pat"]["name"])
 
     def node_mentions(n):
-        return isinstance(n, dict) and L.mentions_param(n, pname)
+        return isinstance(n, dict) and any(L.mentions_param(n, nm) for nm in names)
 
     def visit_S(S, under):
         k = S[0]
@@ -243,7 +248,17 @@ def check_fields(run, rule, f, cfg, dialect, registry, unsupported, guards_ok):
                         continue
                     seen.add(gkey)
                     anykey = "*:%s:%s" % (key, gtext)
-                    ok = gkey in guards_ok or anykey in guards_ok
+                    # reviewed either by its text or by the set of other fields it may depend on (robust to rewording)
+                    fhit = []
+                    for gk in guards_ok:
+                        if "~" in gk:
+                            head, flds_ = gk.rsplit("~", 1)
+                            if head in ("%s:%s" % (dialect, key), "*:%s" % key) and set(foreign) <= set(flds_.split(",")):
+                                fhit.append(gk)
+                    ok = gkey in guards_ok or anykey in guards_ok or bool(fhit)
+                    if fhit and not (gkey in guards_ok or anykey in guards_ok):
+                        guards_ok = dict(guards_ok)
+                        guards_ok[gkey] = guards_ok[fhit[0]]
                     run.ob(rule, "guard:%s" % gkey, ok,
                            "%s: %s is rendered only under the condition `%s`, which depends on another field (%s)%s" % (
                                dialect, key, gtext, ", ".join(foreign), (": " + (guards_ok.get(gkey) or guards_ok.get(anykey))) if ok else
